@@ -407,7 +407,7 @@ def run(tier: str, replay: str | None = None):
         corpus = json.loads(CORPUS.read_text()) if CORPUS.exists() else []
         if corpus:
             groups.append([(c["sig"], [c["call"]]) for c in corpus])
-        n_mod = 28 if tier == "quick" else 450
+        n_mod = 60 if tier == "quick" else 700
         sid = 1000
         for _ in range(n_mod):
             g = []
@@ -510,7 +510,9 @@ def run(tier: str, replay: str | None = None):
                     why = "diagnostic kinds differ"
                 elif not set(r["names"]) <= m["args"] or (m["args"] and not r["names"]):
                     why = "reported parameters differ"
-                elif not r["codes"] and sig["flavor"] != "dataclass" and enc is not None and enc != m["ret"] and not (enc == "any" and m["ret"] == "any"):
+                elif not r["codes"] and sig["flavor"] != "dataclass" and enc != m["ret"]:
+                    # the model's inferred type is always inside the fragment; an implementation value
+                    # outside it (enc is None) is a difference too
                     why = "inferred type differs"
                 if why:
                     corr.append((case_in, {"why": why, "impl": {"codes": r["codes"], "names": r["names"], "inferred": str(r["inferred"])},
